@@ -26,13 +26,30 @@ def run_scn(scn, on_step):
 
     stream = scn["stream"]
     init = scn.get("init", len(stream))
-    m = CandleManager(cm.mk_candles(stream[:init]), **cm.mgr_kwargs(scn.get("tf"), scn.get("fill", False), scn.get("ha", False), scn.get("life")))
+    sub = scn.get("subsec")      # optional sub-second parts (micro-seconds) added to the stamps handed to the library, which drops them
+    enc = scn.get("enc")         # optional encoding of the appended chunks: list of dicts / of lists instead of Candle objects
+
+    def mk(a, b, for_append=False):
+        from datetime import timedelta as _td
+
+        cs = cm.mk_candles(stream[a:b])
+        if sub:
+            for c, k in zip(cs, range(a, b)):
+                if c.timestamp is not None and sub[k % len(sub)]:
+                    c.timestamp = c.timestamp + _td(microseconds=sub[k % len(sub)])
+        if for_append and enc == "dict":
+            return [{"open": c.open, "high": c.high, "low": c.low, "close": c.close, "volume": c.volume, "timestamp": c.timestamp} for c in cs]
+        if for_append and enc == "list":
+            return [[c.timestamp, c.open, c.high, c.low, c.close, c.volume] for c in cs]
+        return cs
+
+    m = CandleManager(mk(0, init), **cm.mgr_kwargs(scn.get("tf"), scn.get("fill", False), scn.get("ha", False), scn.get("life")))
     r = on_step(0, m, init)
     if r:
         return r
     i = init
     for j, k in enumerate(scn.get("chunks", [])):
-        m.append(cm.mk_candles(stream[i : i + k]))
+        m.append(mk(i, i + k, for_append=True))
         i += k
         r = on_step(j + 1, m, i)
         if r:
@@ -226,3 +243,18 @@ def replay(witness):  # noqa: F811
         bad = check_hexital_tfs(scn)
         return {"fails": bad is not None, "detail": bad}
     return _replay_plain(witness)
+
+
+def collect_scn(scn):
+    """the manager's candles (stamps as naive datetimes, OHLCV) after construction and after every append - or the exception"""
+    out = []
+
+    def on_step(j, m, consumed):
+        out.append([(c.timestamp, c.open, c.high, c.low, c.close, c.volume) for c in m.candles])
+        return None
+
+    try:
+        run_scn(scn, on_step)
+    except Exception as e:
+        out.append(("raised", type(e).__name__))
+    return out
